@@ -20,6 +20,12 @@ def register(reg):
     contract(reg, f'{T}:TextLinesCursor.is_name#chars', ['C09'], {'self': 'ACursor', 's': 'arrstr'}, ret='bool', modifies=[],
              ensures=[('property', f'result == (len(s) > 0 and (s[0].isalpha() or s[0] in self.namechars) and all({NC} for c in s[1:]))'),
                       ('property', f'result == (len(s) > 0 and all({NC} for c in s))')])
+    for key, srt, NCS in ((f'tatsu/input/buffer.py:BufferCursor.is_name#chars', 'ABCursor', 'self.buffer._namechar_set'),
+                          (f'tatsu/input/buffer.py:Buffer.is_name#chars', 'ABuffer', 'self._namechar_set')):
+        NCB = f'(c.isalnum() or c in {NCS})'
+        contract(reg, key, ['C09'], {'self': srt, 's': 'arrstr'}, ret='bool', modifies=[],
+                 ensures=[('property', f'result == (len(s) > 0 and (s[0].isalpha() or s[0] in {NCS}) and all({NCB} for c in s[1:]))'),
+                          ('property', f'result == (len(s) > 0 and all({NCB} for c in s))')])
     contract(reg, f'{T}:TextLinesCursor.is_name#rec', P, {'self': 'Cursor', 's': 'str'}, ret='bool', verify=False,
              ensures=['result == uf_is_name(self.input._namechar_set, s)'],
              note='`all(... for c in s[1:])` over characters: the notion "token is a name" is left uninterpreted (bounded check B:C09/is-name)')
